@@ -23,12 +23,15 @@ Init == /\ stream \in Streams
 Avail == Len(stream) - pos
 Fail(reason) == /\ st' = "error" /\ why' = reason
                 /\ UNCHANGED <<stream, line, left, last, out, lenient>>
+\* end of stream inside the terminator: all data has arrived (lenient reading, see HttpFraming!ParseFrom)
+DoneCut == /\ st' = "done" /\ lenient' = TRUE
+           /\ UNCHANGED <<stream, line, left, last, out, why>>
 
 \* one byte of the size line; the line is complete when it ends with CR LF
 ReadSizeByte ==
   /\ st = "size"
   /\ reads' = reads + 1
-  /\ IF Avail = 0 THEN Fail("eof_in_size") /\ pos' = pos
+  /\ IF Avail = 0 THEN (IF CutLastChunk(line) THEN DoneCut ELSE Fail("eof_in_size")) /\ pos' = pos
      ELSE LET ln == Append(line, stream[pos + 1])
               n == Len(ln)
           IN /\ pos' = pos + 1
@@ -56,7 +59,7 @@ ReadData ==
 ReadCrLf ==
   /\ st = "crlf"
   /\ reads' = reads + 1
-  /\ IF Avail < 2 THEN Fail("eof_in_crlf") /\ pos' = Len(stream)
+  /\ IF Avail < 2 THEN (IF last THEN DoneCut ELSE Fail("eof_in_crlf")) /\ pos' = Len(stream)
      ELSE /\ pos' = pos + 2
           /\ IF stream[pos + 1] = CR /\ stream[pos + 2] = LF
              THEN /\ st' = IF last THEN "done" ELSE "size"
